@@ -25,6 +25,15 @@ Streams
           objects moved to and from a second Document), with queries of every kind run BEFORE and
           BETWEEN the edits on the same objects. The queried tree is read from the child lists
           (Section.sections / Section.properties) after the history; the model gets that tree.
+          Sub-stream twins: the Document holds EQUAL Sections (BaseObject.__eq__ is a deep comparison)
+          at several places and the edits move objects between exactly those. Where child lists and
+          parent references disagree afterwards, the property is judged on the objects (graphcheck).
+  names   sibling names that differ by case / white space / Unicode normalisation / the spelling of a
+          number only; more than ten Properties or siblings
+  types   hierarchical types of every shape; with non-ASCII letters ORACLE ONLY
+The requests of find / find_related are derived from the tree (cross product of the names, near misses
+of them, the types and every component of them) in addition to fixed grids; the final queries rotate
+through keyword / defaulted / positional calls.
 """
 import base64
 import functools
@@ -127,6 +136,17 @@ def path_safe(secs):
         if not path_safe(s["s"]):
             return False
     return True
+
+
+# names a careless comparison (lower(), strip(), normalize(), int()) would identify
+CONFUSABLE = [["a", "A", " a", "a ", "a\t"], [u"\xe9", u"e\u0301", u"\xc9", "e"], [u"\xdf", "ss", "SS", u"\u1e9e"],
+              [u"\u0130", u"i\u0307", "i", "I", u"\u0131"], ["1", "01", "1.0", "10", "2", "11", u"\u0661"],
+              ["ab", "a b", "a  b", u"a\xa0b", "a_b", "a-b"], [u"x\u2028", u"x\x85", "x", "x\x0b"],
+              ["a.b", "a..b", "a.", ".a", "..."], ["~", "*", "a*", "%s", "\\", "a\\b", "{0}", "$"]]
+RICH_TYPES = ["stim", "stim/white", "stim/white/x", "white", "white/stim", "x/stim/white", "stim/stim", "a/a/a",
+              "stim/", "/stim", "stim//white", "sti", "stimx", "stim/whitex", "Stim/White", "STIM", " stim", "stim ",
+              "n.s.", "", "/", "t", "T", "stim/t"]
+RICH_TYPES_U = [u"\xe9/a", u"\xc9/b", u"\u0130/x", u"\xf1", u"stim/\xe9", u"\xe9"]
 
 
 # ----------------------------------------------------------------------------- histories
@@ -309,6 +329,148 @@ def hist_case(rng, uid, forest, kinds, warm, plan, via=None, links=False, ids=Fa
     return case
 
 
+def twin_case(rng, uid, j=0):
+    """
+    Stream hist, sub-stream "twins" (added after seeded round 3): the Document holds Sections that are
+    EQUAL (BaseObject.__eq__ is a deep comparison: name, type, ..., Sections, Properties; ids are ignored)
+    but not the same object - the same name, type and content at two places, as every recording with
+    per-session copies of one setup has them - or that become equal by the edit, and the history edits
+    exactly those: an object moves from one twin to the other (parent=, append, insert, extend with one
+    or two objects, sections[i] = x), is removed from one, a twin replaces the other, a twin is renamed.
+    Twins can be Sections at depth 1-4, Properties, or the two Documents.
+    """
+    import copy
+    types = TYPES[:6]
+    diff = ["sec", "prop", "secprop", "none", "sec", "prop", "only-sec", "only-prop"][j % 8]
+    if diff.startswith("only-"):
+        common_s, common_p = [], []                        # the one twin holds nothing but the object
+    else:
+        common_s = decorate(rng.choice(forests(rng.choice([0, 0, 1, 1, 2]))), rng, uid, types)
+        common_p = []
+        for pn in rng.sample(PROP_NAMES, rng.choice([0, 0, 1, 2])):
+            uid[0] += 1
+            common_p.append({"n": pn, "v": rng.choice([[uid[0]], [uid[0], -3], []])})
+    name, typ = rng.choice(NAMES), rng.choice(types)
+    t1 = {"n": name, "t": typ, "p": copy.deepcopy(common_p), "s": copy.deepcopy(common_s)}
+    t2 = {"n": name, "t": typ, "p": copy.deepcopy(common_p), "s": copy.deepcopy(common_s)}
+    a, b = t1, t2                      # the innermost twins (t1 / t2 get wrapped below)
+    extra_s = extra_p = None
+    free = [n for n in NAMES if n not in [s["n"] for s in common_s]]
+    if diff in ("sec", "secprop", "only-sec") and free:
+        extra_s = decorate(((rng.choice(free), rng.choice(forests(rng.choice([0, 0, 1])))),), rng, uid, types)[0]
+        t1["s"].insert(rng.randrange(0, len(t1["s"]) + 1), extra_s)
+    free = [n for n in PROP_NAMES if n not in [p["n"] for p in common_p]]
+    if diff in ("prop", "secprop", "only-prop") and free:
+        uid[0] += 1
+        extra_p = {"n": rng.choice(free), "v": rng.choice([[uid[0]], [uid[0], -9], []])}
+        t1["p"].insert(rng.randrange(0, len(t1["p"]) + 1), extra_p)
+    # equal Sections around the twins: the twins are the children (grand children ...) of twins
+    for _ in range(rng.choice([0, 0, 1, 1, 2])):
+        wn, wt = rng.choice(NAMES), rng.choice(types)
+        wp = []
+        if rng.random() < 0.3:
+            uid[0] += 1
+            wp = [{"n": rng.choice(PROP_NAMES), "v": [uid[0]]}]
+        t1 = {"n": wn, "t": wt, "p": copy.deepcopy(wp), "s": [t1]}
+        t2 = {"n": wn, "t": wt, "p": copy.deepcopy(wp), "s": [t2]}
+    docs = rng.random() < 0.2
+    top_x = None
+    if docs:
+        # the two Documents are the outermost twins
+        main, other = [t2], [t1]
+        if rng.random() < 0.5:
+            extra = decorate(rng.choice(forests(1)), rng, uid, types)
+            if extra[0]["n"] != t1["n"]:
+                main, other = main + copy.deepcopy(extra), other + extra
+        if rng.random() < 0.5:
+            # a top-level Section only the second Document has: it moves over
+            free = [n for n in NAMES if n not in [s["n"] for s in other]]
+            if free:
+                top_x = decorate(((rng.choice(free), ()),), rng, uid, types)[0]
+                other = other + [top_x]
+    else:
+        na, nb = rng.sample(NAMES, 2)
+        ta = rng.choice(types)
+        tb = ta if rng.random() < 0.7 else rng.choice(types)
+        tops = [{"n": na, "t": ta, "p": [], "s": [t1]}, {"n": nb, "t": tb, "p": [], "s": [t2]}]
+        if rng.random() < 0.5:
+            tops.reverse()
+        if rng.random() < 0.3:
+            used = (na, nb)
+            tops.insert(rng.randrange(0, 3), decorate(((rng.choice([n for n in NAMES if n not in used]), ()),),
+                                                      rng, uid, types)[0])
+        main = tops if rng.random() < 0.5 else [{"n": rng.choice(NAMES), "t": rng.choice(types), "p": [], "s": tops}]
+        other = decorate(rng.choice(forests(rng.randrange(0, 3))), rng, uid, types[:3])
+    doc = {"s": main, "o": other}
+    counter = [0]
+    number_nodes(doc["s"], counter)
+    number_nodes(doc["o"], counter)
+
+    if rng.random() < 0.15:
+        share_ids(rng, doc["s"])            # equal AND carrying the same ids (a keep_id clone that stayed)
+    A, B = {"u": a["u"]}, {"u": b["u"]}
+    holder = {}                         # id(node) -> (handle of the object holding it, index in its list)
+    for root, u in ((doc["s"], 0), (doc["o"], -1)):
+        todo = [(u, root)]
+        while todo:
+            pu, kids = todo.pop()
+            for n, kid in enumerate(kids):
+                holder[id(kid)] = ({"u": pu}, n)
+                todo.append((kid["u"], kid["s"]))
+    hows = ["append", "insert", "extend", "parent", "setitem"]
+    how = hows[(j // 8) % 5]
+    i = rng.choice([0, 0, 1, 2, -1, 5])
+    warm = lambda p=0.5: [{"op": "warm", "k": [k for k in WARM_KINDS if rng.random() < 0.4]
+                           + (["mid"] if rng.random() < 0.5 else [])}] if rng.random() < p else []
+    ops = warm()
+    main_ops = []
+    if extra_s is not None:
+        main_ops.append({"op": "move", "x": {"u": extra_s["u"]}, "to": B, "how": how, "i": i})
+    if extra_p is not None:
+        k = [n for n, p in enumerate(a["p"]) if p is extra_p][0]
+        main_ops.append({"op": "pmove", "x": A, "k": k, "to": B, "how": how, "i": i})
+    if extra_s is not None and extra_p is not None and rng.random() < 0.5:
+        # both in one call
+        k = [n for n, p in enumerate(a["p"]) if p is extra_p][0]
+        main_ops = [{"op": "move", "x": {"u": extra_s["u"]}, "to": B, "how": "extend", "i": i, "y": A, "yk": k}]
+    if docs and top_x is not None:
+        main_ops.append({"op": "move", "x": {"u": top_x["u"]}, "to": {"u": 0}, "how": how, "i": i})
+    if not main_ops:
+        # equal twins: what holds one is asked to take the other, a child changes sides (refused: the
+        # name is taken), one twin goes, one twin gets a new name
+        main_ops.append(rng.choice([
+            {"op": "move", "x": A, "to": B, "how": how, "i": i},
+            {"op": "move", "x": {"u": a["u"], "d": [0]}, "to": B, "how": how, "i": i},
+            {"op": "move", "x": A, "to": holder[id(b)][0], "how": "setitem", "i": holder[id(b)][1]},
+            {"op": "remove", "x": A, "how": rng.choice(["remove", "parent_none"])},
+            {"op": "rename", "x": A, "name": rng.choice(NAMES)},
+            {"op": "clone", "x": A, "keep_id": rng.random() < 0.5, "children": True, "name": None, "to": B,
+             "how": how, "i": i, "u": counter[0] + 1}]))
+        if main_ops[0]["op"] == "clone":
+            counter[0] += 1
+    rng.shuffle(main_ops)
+    for op in main_ops:
+        ops.append(op)
+        ops += warm(0.4)
+    # afterwards: more edits around the twins (the moved object goes back, or on to the twin's parent,
+    # a twin is removed / replaces the other one / is cloned), then anything
+    for _ in range(rng.choice([0, 0, 1, 2, 3])):
+        r = rng.random()
+        if r < 0.25 and extra_s is not None:
+            ops.append({"op": "move", "x": {"u": extra_s["u"]}, "to": rng.choice([A, B, {"u": 0}]),
+                        "how": rng.choice(hows), "i": rng.choice([0, 1, -1])})
+        elif r < 0.4:
+            ops.append({"op": "pmove", "x": rng.choice([A, B]), "k": rng.randrange(0, 3), "to": rng.choice([A, B]),
+                        "how": rng.choice(hows), "i": rng.choice([0, 1, -1])})
+        elif r < 0.5:
+            ops.append({"op": "remove", "x": rng.choice([A, B]), "how": rng.choice(["remove", "parent_none"])})
+        else:
+            op = hist_op(rng, rng.choices(OP_KINDS, OP_WEIGHTS)[0], counter, uid)
+            ops += op if isinstance(op, list) else [op]
+        ops += warm(0.3)
+    return {"stream": "hist", "plan": "all", "doc": doc, "ops": ops, "twins": diff}
+
+
 # ----------------------------------------------------------------------------- positions
 def sec_positions(doc):
     """All Section positions of a JSON tree in level order, with depth of the tree."""
@@ -320,6 +482,53 @@ def sec_positions(doc):
         out += level
         level = [(p + (i,), c) for p, s in level for i, c in enumerate(s["s"])]
     return out, depth
+
+
+def is_ascii(s):
+    return all(ord(ch) < 128 for ch in s)
+
+
+def swap_case(s):
+    """The same text in another case. Only for ASCII: how str.lower() treats other letters (U+0130,
+    sharp s) is not something the property fixes, such strings are only asked for as they are stored."""
+    return s.swapcase() if is_ascii(s) else s
+
+
+def derived_requests(kids, rng=None, max_keys=6, max_types=8):
+    """
+    The names and types to ask `find` for, derived from the Sections it searches (JSON nodes):
+    keys   None, the names that occur, near misses of them (other case, stripped, shortened, extended)
+    types  None, the types that occur, each in another case, every single component of a hierarchical
+           type (first / middle / last: a proper super-type matches with include_subtype only, the last
+           component never), leading parts "a/b" of "a/b/c", one unknown type
+    All keys are combined with all types by the caller. rng None: deterministic choice (plan "all").
+    """
+    names = list(dict.fromkeys(s["n"] for s in kids))
+    types = list(dict.fromkeys(s["t"] for s in kids))
+    near = []
+    for n in names:
+        for v in (swap_case(n), n.strip(), n[:-1], n + "b", " " + n):
+            if v and v not in names and v not in near:
+                near.append(v)
+    comps = []
+    for t in types:
+        parts = t.split("/")
+        cand = []
+        if len(parts) > 1:
+            cand += parts + ["/".join(parts[:k]) for k in range(2, len(parts))] + [swap_case(parts[0])]
+        cand.append(swap_case(t))
+        for v in cand:
+            if v not in types and v not in comps:
+                comps.append(v)
+    if rng is None:
+        keys = names[:max_keys - 2] + near[:2]
+        typs = types[:max_types // 2]
+        typs += comps[:max_types - 1 - len(typs)]
+    else:
+        keys = rng.sample(names, min(len(names), max_keys - 3)) + rng.sample(near, min(len(near), 2))
+        typs = rng.sample(types, min(len(types), 3))
+        typs += rng.sample(comps, min(len(comps), max_types - 3 - len(typs)))
+    return [None] + keys, [None] + typs + ["zz/y"]
 
 
 _PLAN_CACHE = {}
@@ -409,6 +618,48 @@ def _plan_queries(case):
                    (False, False, True, False), (True, True, True, True)]
             for ki, (key, typ) in enumerate(((None, None), ("ab", None), (None, "t"), ("a", "T"), (None, "Stim"))):
                 for (c, s, p, r) in (flagsets if ki < 2 else few):
+                    for fa in (False, True):
+                        qs.append({"q": "related", "cur": list(st), "key": key, "type": typ, "children": c,
+                                   "siblings": s, "parents": p, "recursive": r, "all": fa})
+    # ---- added after seeded round 3: requests DERIVED FROM THE TREE (the fixed grids above ask for a
+    # name and a type together at two points only, and never for a name together with a super-type)
+    prng = None
+    if plan != "all":
+        import random
+        prng = random.Random("derived:%s" % plan)
+    # "lite": a smaller derived grid, for the 17 000 trees of size 5 the thorough tier enumerates
+    lite = bool(case.get("lite"))
+    asked = set((tuple(q["cur"]), q["key"], q["type"]) for q in qs if q["q"] == "find")
+    for st in dict.fromkeys(tuple(s) for s in starts):
+        kids = (byp[st]["s"] if st else doc["s"])
+        if kids:
+            keys, typs = derived_requests(kids, prng, *((4, 5) if lite else (6, 8)))
+            for key in keys:
+                for typ in typs:
+                    if (st, key, typ) in asked:
+                        continue              # the fixed grid has asked that already
+                    for fa, sub in (((False, False), (False, True), (True, True)) if lite else
+                                    ((False, False), (False, True), (True, False), (True, True))):
+                        qs.append({"q": "find", "cur": list(st), "key": key, "type": typ, "all": fa, "sub": sub})
+        if secs:
+            # find_related: name and type of one Section asked for together (in the stored and in
+            # another case), its name with the type of another Section, with a super-type, type alone
+            if prng is None:
+                picks = [secs[0][1], secs[-1][1]]
+            else:
+                picks = [prng.choice(secs)[1], prng.choice(secs)[1]]
+            reqs = []
+            for n, x in enumerate(picks):
+                other = picks[1 - n]
+                for req in ((x["n"], x["t"]), (x["n"], swap_case(x["t"])), (x["n"], x["t"].split("/")[0]),
+                            (x["n"], other["t"]), (None, x["t"]), (swap_case(x["n"]), x["t"])):
+                    if req not in reqs:
+                        reqs.append(req)
+            for key, typ in (reqs[:2] if lite else reqs):
+                for (c, s, p, r) in ((True, True, True, True), (True, False, False, False),
+                                     (False, True, True, False))[1 if lite and st else 0:]:
+                    if not st and (c, s, p, r) == (False, True, True, False):
+                        continue
                     for fa in (False, True):
                         qs.append({"q": "related", "cur": list(st), "key": key, "type": typ, "children": c,
                                    "siblings": s, "parents": p, "recursive": r, "all": fa})
@@ -520,7 +771,7 @@ class Impl(object):
             return lambda v: f["n"] in v
         raise ValueError(k)
 
-    def run(self, q):
+    def run(self, q, n=0):
         at = lambda key: self.obj_at[tuple(q[key])]
         kind = q["q"]
         if kind == "wf":
@@ -543,25 +794,47 @@ class Impl(object):
             return self.res(lambda: at("cur").get_section_by_path(q["path"]), self.enc_sec)
         if kind == "prop":
             return self.res(lambda: at("cur").get_property_by_path(q["path"]), self.enc_prop)
+        # The same request is made in the ways a caller can make it (added after seeded round 3):
+        # every argument by keyword; arguments that have their documented default left out; arguments
+        # by position in the documented order. Which way is fixed by the place of the query in the plan.
+        shape = n % 3
         if kind == "itersec":
             kw = {} if q["md"] is None else {"max_depth": q["md"]}
-            it = at("start").itersections(yield_self=q["ys"], filter_func=self.sec_filter(q["f"]), **kw)
+            if shape != 1 or q["ys"]:
+                kw["yield_self"] = q["ys"]
+            if shape != 1 or q["f"]["k"] != "all":
+                kw["filter_func"] = self.sec_filter(q["f"])
+            it = at("start").itersections(**kw)
             return [self.enc_sec(s) for s in it]
-        if kind == "iterprop":
-            kw = {} if q["md"] is None else {"max_depth": q["md"]}
-            it = at("start").iterproperties(filter_func=self.sec_filter(q["f"]), **kw)
-            return [self.enc_prop(p) for p in it]
-        if kind == "iterval":
-            kw = {} if q["md"] is None else {"max_depth": q["md"]}
-            it = at("start").itervalues(filter_func=self.val_filter(q["f"]), **kw)
-            return [self.enc_vals(v) for v in it]
+        if kind in ("iterprop", "iterval"):
+            func = at("start").iterproperties if kind == "iterprop" else at("start").itervalues
+            filt = self.sec_filter(q["f"]) if kind == "iterprop" else self.val_filter(q["f"])
+            if shape == 2:
+                it = func(q["md"], filt)
+            elif shape == 1 and q["f"]["k"] == "all":
+                it = func(q["md"]) if q["md"] is not None else func()
+            else:
+                kw = {} if q["md"] is None else {"max_depth": q["md"]}
+                it = func(filter_func=filt, **kw)
+            return [(self.enc_prop if kind == "iterprop" else self.enc_vals)(x) for x in it]
         if kind == "find":
-            return self.found(at("cur").find(key=q["key"], type=q["type"], findAll=q["all"],
-                                             include_subtype=q["sub"]))
+            if shape == 2:
+                return self.found(at("cur").find(q["key"], q["type"], q["all"], q["sub"]))
+            kw = {"key": q["key"], "type": q["type"], "findAll": q["all"], "include_subtype": q["sub"]}
+            if shape == 1:
+                kw = dict((k, v) for k, v in kw.items() if v not in (None, False))
+            return self.found(at("cur").find(**kw))
         if kind == "related":
-            return self.found(at("cur").find_related(key=q["key"], type=q["type"], children=q["children"],
-                                                     siblings=q["siblings"], parents=q["parents"],
-                                                     recursive=q["recursive"], findAll=q["all"]))
+            if shape == 2:
+                return self.found(at("cur").find_related(q["key"], q["type"], q["children"], q["siblings"],
+                                                         q["parents"], q["recursive"], q["all"]))
+            kw = {"key": q["key"], "type": q["type"], "children": q["children"], "siblings": q["siblings"],
+                  "parents": q["parents"], "recursive": q["recursive"], "findAll": q["all"]}
+            if shape == 1:
+                default = {"key": None, "type": None, "children": True, "siblings": True, "parents": True,
+                           "recursive": True, "findAll": False}
+                kw = dict((k, v) for k, v in kw.items() if v is not default[k] and v != default[k])
+            return self.found(at("cur").find_related(**kw))
         raise ValueError(kind)
 
 
@@ -620,8 +893,12 @@ class HistImpl(Impl):
                 self.stopped = n              # merges / clones of clones: keep the tree small
                 break
         self.final, secs, props, bad = self.walk(self.doc)
+        # the second Document is a document as well (objects come from it and leave for it)
+        self.graph = self.graphcheck(self.other, "second Document")
         if bad:
-            raise Skip(bad)
+            # no positions to talk about; what the property says about objects is still checked
+            self.graph += self.graphcheck(self.doc, "Document")
+            raise Skip(bad, self.graph)
         self.pos_of = {id(self.doc): ()}
         self.obj_at = {(): self.doc}
         self.prop_of = {}
@@ -631,6 +908,10 @@ class HistImpl(Impl):
         for pos, k, prop in props:
             self.prop_of[id(prop)] = (pos, k)
         self.keep = [p for _pos, _k, p in props]
+
+    @staticmethod
+    def graphcheck(doc, label):
+        return graphcheck(doc, label)
 
     # -- the tree as the child lists define it ---------------------------------
     @staticmethod
@@ -681,6 +962,16 @@ class HistImpl(Impl):
             raise Skip("the Document could not be written and read back: %s" % fw.exc_name(exc))
         old, osecs, _p, bad = self.walk(self.doc)
         new, nsecs, _p, bad2 = self.walk(loaded)
+        if fmt == "RDF" and not bad and not bad2:
+            # an RDF graph does not keep the order of the children: the handles are matched by path
+            by_path = dict((sec.get_path(), sec) for _pos, sec in nsecs)
+            if sorted(by_path) != sorted(sec.get_path() for _pos, sec in osecs) or len(by_path) != len(nsecs):
+                raise Skip("the reader did not return the Sections that were written")
+            for u, sec in list(self.objs.items()):
+                if sec.get_path() in by_path and sec.document is self.doc:
+                    self.objs[u] = by_path[sec.get_path()]
+            self.doc = loaded
+            return
         shape = lambda t: [shape(s) for s in t["s"]]
         if bad or bad2 or (not has_links(doc_json["s"]) and shape(old) != shape(new)):
             raise Skip("the reader did not return the tree that was written")
@@ -696,6 +987,21 @@ class HistImpl(Impl):
         from odml.tools.odmlparser import ODMLReader, ODMLWriter
         if fmt == "CLONE":
             loaded = self.doc.clone(keep_id=(how == "keep_id"))
+        elif fmt == "RDF":
+            if how == "string":
+                loaded = ODMLReader("RDF", show_warnings=False).from_string(ODMLWriter("RDF").to_string(self.doc), "xml")
+            else:
+                fd, path = tempfile.mkstemp(prefix="c14_", suffix=".rdf")
+                os.close(fd)
+                try:
+                    ODMLWriter("RDF").write_file(self.doc, path)
+                    loaded = ODMLReader("RDF", show_warnings=False).from_file(path, "xml")
+                finally:
+                    if os.path.exists(path):
+                        os.remove(path)
+            if not isinstance(loaded, list) or len(loaded) != 1:
+                raise Skip("the RDF reader did not return one Document")
+            loaded = loaded[0]
         elif how == "string":
             text = ODMLWriter(fmt).to_string(self.doc)
             loaded = ODMLReader(fmt, show_warnings=False).from_string(text)
@@ -728,8 +1034,11 @@ class HistImpl(Impl):
             raise Skip()
         return props[k % len(props)]
 
-    def attach(self, obj, to, how, i, props=False):
-        if how == "parent":
+    def attach(self, obj, to, how, i, props=False, also=None):
+        if how == "extend" and also is not None:
+            # several objects in one call (one of them may be refused: nothing is added then)
+            to.extend([obj, also] if i % 2 == 0 else [also, obj])
+        elif how == "parent":
             obj.parent = to
         elif how == "append":
             to.append(obj)
@@ -809,7 +1118,12 @@ class HistImpl(Impl):
         elif k == "prename":
             self.nth_prop(x, op["k"]).name = op["name"]
         elif k == "move":
-            self.attach(x, to, op["how"], op.get("i", 0))
+            also = None
+            if "y" in op:
+                also = R(op["y"])
+                if "yk" in op:
+                    also = self.nth_prop(also, op["yk"])
+            self.attach(x, to, op["how"], op.get("i", 0), also=also)
         elif k == "remove":
             if x.parent is None:
                 raise Skip()
@@ -883,6 +1197,9 @@ class HistImpl(Impl):
         for doc in (self.other, self.doc):
             _tree, secs, props, bad = self.walk(doc)
             if bad:
+                if "mid" in kinds and len(self.mid) <= 3:
+                    self.mid += self.graphcheck(doc, "after %d steps of the history, %s" % (
+                        self.nsteps, "Document" if doc is self.doc else "second Document"))
                 return "skip"
             self.warm_doc(doc, _tree, secs, props, kinds)
         return "ok"
@@ -981,6 +1298,116 @@ class HistImpl(Impl):
         if sorted(map(repr, got)) != sorted(repr(p.values) for _p, _k, p in props):
             self.mid.append("after %d steps of the history: Document.itervalues() yields %d value lists, "
                             "the child lists hold %d" % (step, len(got), len(props)))
+
+
+def graphcheck(doc, label):
+    """
+    The property read on OBJECTS (identity), for a state in which the child lists are not known to be a
+    tree - a Section found in two child lists, a parent reference that names another holder. There are
+    no positions then, so neither the model nor the position oracle applies; what the property says
+    under every reading still does:
+      * a traversal yields no object twice ("exactly once") and nothing that is in no child list below
+        the start;
+      * an object that is a child by the child list AND by its parent reference is yielded;
+      * the path of such a Section, looked up from the Document, is that Section (names inside the
+        quantifier, sibling names distinct).
+    A child list that leads back to one of its own ancestors is not judged here (no traversal ends).
+    """
+    secs, holders = [], {}
+    level, seen = [doc], set([id(doc)])
+    edges = {}
+    while level:
+        nxt = []
+        for node in level:
+            kids = list(iter(node.sections))
+            edges[id(node)] = kids
+            for sec in kids:
+                holders.setdefault(id(sec), []).append(node)
+                if id(sec) not in seen:
+                    seen.add(id(sec))
+                    secs.append(sec)
+                    nxt.append(sec)
+        level = nxt
+        if len(secs) > 2000:
+            return []
+    # cycle?  (iterative depth first search with colours)
+    colour = {}
+    stack = [(doc, iter(edges[id(doc)]))]
+    colour[id(doc)] = 1
+    while stack:
+        node, it = stack[-1]
+        kid = next(it, None)
+        if kid is None:
+            colour[id(node)] = 2
+            stack.pop()
+        elif colour.get(id(kid)) == 1:
+            return []
+        elif colour.get(id(kid)) is None:
+            colour[id(kid)] = 1
+            stack.append((kid, iter(edges[id(kid)])))
+    props, pholders = [], {}
+    for sec in secs:
+        for prop in iter(sec.properties):
+            pholders.setdefault(id(prop), []).append(sec)
+            if len(pholders[id(prop)]) == 1:
+                props.append(prop)
+    firm = lambda obj, hold: any(obj.parent is h for h in hold[id(obj)])
+    out = []
+
+    def judge(what, got, reached, hold):
+        ids = [id(x) for x in got]
+        known = set(id(x) for x in reached)
+        if len(set(ids)) != len(ids):
+            twice = [x for x in got if ids.count(id(x)) > 1][0]
+            out.append("%s: %s yields %r %d times (each object below the start point exactly once)"
+                       % (label, what, twice, ids.count(id(twice))))
+        elif [i for i in ids if i not in known]:
+            out.append("%s: %s yields an object that is in no child list below the start" % (label, what))
+        else:
+            lost = [x for x in reached if id(x) not in ids and firm(x, hold)]
+            if lost:
+                out.append("%s: %s does not yield %r, a child by child list and parent reference"
+                           % (label, what, lost[0]))
+
+    judge("Document.itersections()", list(doc.itersections()), secs, holders)
+    judge("Document.iterproperties()", list(doc.iterproperties()), props, pholders)
+    nvals = len(list(doc.itervalues()))
+    if not out and nvals != len(props):
+        out.append("%s: Document.itervalues() yields %d value lists, the child lists hold %d Properties"
+                   % (label, nvals, len(props)))
+    for start in secs[:30]:
+        if len(out) > 3:
+            break
+        got = list(start.itersections(yield_self=True))
+        if len(set(id(x) for x in got)) != len(got):
+            out.append("%s: itersections(yield_self=True) started at %r yields a Section twice" % (label, start))
+        got = list(start.iterproperties())
+        if len(set(id(x) for x in got)) != len(got):
+            out.append("%s: iterproperties() started at %r yields a Property twice" % (label, start))
+    named = all(isinstance(s.name, str) and plain(s.name) for s in secs) and \
+        all(len(set(k.name for k in kids)) == len(kids) for kids in edges.values())
+    if named and len(secs) <= 60:
+        for sec in secs:
+            chain, node = True, sec
+            for _ in range(len(secs) + 1):
+                if node is doc or node is None:
+                    break
+                if not any(node.parent is h for h in holders.get(id(node), [])):
+                    chain = False
+                    break
+                node = node.parent
+            if not chain or node is not doc:
+                continue
+            try:
+                path = sec.get_path()
+                got = doc.get_section_by_path(path)
+            except Exception as exc:
+                path, got = "?", exc
+            if got is not sec:
+                out.append("%s: the path %r of %r, looked up from the Document, gives %s"
+                           % (label, path, sec, type(got).__name__ if isinstance(got, Exception) else repr(got)))
+                break
+    return out[:4]
 
 
 def has_links(secs):
@@ -1114,6 +1541,12 @@ class C14(fw.Check):
             "link/merge/clean/finalize, type/value edits, refused calls, moves to and from a second Document - "
             "with queries of every kind before and between the edits); the tree read from the child lists "
             "after the history is queried like a small/big tree and given to the model. "
+            "twins (in hist): equal Sections at several places, objects moved between them by parent=, append, "
+            "insert, extend, sections[i]=; a final state in which child lists and parent references disagree "
+            "is judged on the objects (no traversal yields an object twice). names: confusable sibling names, "
+            ">10 Properties / siblings; types: hierarchical types of every shape (non-ASCII: oracle only); RDF "
+            "round trips; find / find_related requests derived from the tree (names x types x findAll x "
+            "include_subtype); calls by keyword, with defaults left out, by position. "
             "A case is non-trivial when the "
             "tree has at least two Sections (tree streams) or the function result is non-empty (posix); "
             "distinct = distinct canonical JSON of the case.")
@@ -1130,6 +1563,8 @@ class C14(fw.Check):
             for f in forests(n):
                 cases.append({"stream": "small", "h": True, "plan": "all",
                               "doc": {"s": decorate(f, rng, uid)}})
+                if n >= 5:
+                    cases[-1]["lite"] = True
         if tier == "quick":
             for n, cnt in ((4, 120), (5, 160)):
                 pool = forests(n)
@@ -1245,6 +1680,53 @@ class C14(fw.Check):
             kinds = rng.choices(OP_KINDS, OP_WEIGHTS, k=rng.randrange(0, 5))
             cases.append(hist_case(rng, uid, small(), kinds, None, "all", via=via, links=rng.random() < 0.3,
                                    ids=via[1] == "string" and rng.random() < 0.4))
+        # ---- added after seeded round 3 (again behind the older streams) ----
+        # Documents that come out of the RDF reader (the order of the children is not the written one)
+        for i in range(12 * scale):
+            kinds = rng.choices(OP_KINDS, OP_WEIGHTS, k=rng.randrange(0, 4))
+            cases.append(hist_case(rng, uid, small(), kinds, None, "all", via=("RDF", ["string", "file"][i % 2])))
+        # histories on Documents that hold EQUAL Sections / Properties at several places
+        for j in range(200 * scale):
+            cases.append(twin_case(rng, uid, j))
+        # sibling names that differ by case / white space / Unicode normalisation / spelling of a number
+        # only, more than ten Properties in a Section, more than ten siblings with multi-digit names
+        for i in range(48 * scale):
+            groups = rng.sample(CONFUSABLE, rng.choice([1, 2]))
+            names = [n for g in groups for n in g]
+            f = random_forest(rng, rng.choice([2, 3, 4, 5, 6, 9, 14]), names, rng.choice([3, 6, 8]))
+            doc = {"s": decorate(f, rng, uid, TYPES, names[:6])}
+            nodes = [n for _p, n in json_nodes(doc["s"])]
+            if i % 3 == 0 and nodes:
+                node = rng.choice(nodes)
+                have = [p["n"] for p in node["p"]]
+                for pn in ["p%d" % k for k in range(1, rng.choice([10, 11, 14]))] + names:
+                    if pn not in have:
+                        uid[0] += 1
+                        have.append(pn)
+                        node["p"].append({"n": pn, "v": [uid[0]]})
+            cases.append({"stream": "names", "h": True, "plan": "all" if len(nodes) <= 6 else rng.randrange(1, 10 ** 9),
+                          "doc": doc})
+        for i in range(4 * scale):
+            names = [str(k) for k in range(0, 13)] + ["01", "010", "1.0", "100"]
+            rng.shuffle(names)
+            f = tuple((nm, random_forest(rng, rng.choice([0, 0, 2]), names, 3)) for nm in names[:rng.choice([10, 11, 15])])
+            cases.append({"stream": "names", "h": True, "plan": rng.randrange(1, 10 ** 9),
+                          "doc": {"s": decorate(f, rng, uid, TYPES, PROP_NAMES)}})
+        # hierarchical types of every shape (repeated / empty / shared components, a component that is
+        # the beginning of another one, white space); with letters outside ASCII the stream is
+        # ORACLE ONLY (the model's str.lower() is ASCII)
+        for i in range(60 * scale):
+            ascii_only = i % 3 != 0
+            pool = RICH_TYPES if ascii_only else RICH_TYPES + RICH_TYPES_U
+            types = rng.sample(pool, rng.choice([2, 3, 5, 8]))
+            f = random_forest(rng, rng.choice([2, 3, 4, 5, 6, 10]), NAMES + ["c", "d", "e", "A"], rng.choice([3, 4, 8]))
+            doc = {"s": decorate(f, rng, uid, types, PROP_NAMES)}
+            nsec = len(json_nodes(doc["s"]))
+            case = {"stream": "types", "h": True, "plan": "all" if nsec <= 6 else rng.randrange(1, 10 ** 9),
+                    "doc": doc}
+            if not ascii_only:
+                case["oracle_only"] = True
+            cases.append(case)
         return cases
 
     # -- implementation ------------------------------------------------------
@@ -1274,12 +1756,13 @@ class C14(fw.Check):
             try:
                 im = HistImpl(case)
             except Skip as exc:
-                return {"skipped": str(exc)}
+                return {"skipped": str(exc.args[0]) if exc.args else "",
+                        "graph": list(exc.args[1]) if len(exc.args) > 1 else []}
             dc = derived_case(case, im.final)
-            return {"answers_z": pack_answers([im.run(q) for q in plan_queries(dc)]), "doc": im.final,
-                    "log": im.log, "mid": im.mid, "stopped": im.stopped}
+            return {"answers_z": pack_answers([im.run(q, n) for n, q in enumerate(plan_queries(dc))]), "doc": im.final,
+                    "log": im.log, "mid": im.mid, "graph": im.graph, "stopped": im.stopped}
         im = Impl(case["doc"])
-        return {"answers_z": pack_answers([im.run(q) for q in plan_queries(case)])}
+        return {"answers_z": pack_answers([im.run(q, n) for n, q in enumerate(plan_queries(case))])}
 
     # -- model ---------------------------------------------------------------
     def model_requests(self, case, obs):
@@ -1290,6 +1773,8 @@ class C14(fw.Check):
             if "b" in case:
                 req["b"] = case["b"]
             return [req]
+        if case.get("oracle_only"):
+            return []                         # outside the model's vocabulary: the oracle alone decides
         case = eff_case(case, obs)
         if case is None:
             return []
@@ -1335,6 +1820,7 @@ class C14(fw.Check):
         out = []
         if is_hist(case):
             out += obs.get("mid", [])        # the property at intermediate states of the history
+            out += obs.get("graph", [])      # ... and on the objects, where there are no positions
             case = eff_case(case, obs)
             if case is None:
                 return out
